@@ -147,6 +147,30 @@ def scenAvail (len passes limit : Nat) : Option Nat :=
   if passes == 0 then (if limit == 0 then none else some limit)
   else if limit == 0 then some (passes * len) else some (min (passes * len) limit)
 
+/-! ### scenario weights (`lib/math` `GCD`, `GCDM`, as the Go code computes them) -/
+
+/-- `math.GCD(a, b)` on non-negative numbers: `for a > 0 && b > 0 { if a >= b { a %= b } else { b %= a } }`, then the
+larger of the two; `fuel` bounds the loop -/
+def goGcdLoop : Nat → Nat → Nat → Nat
+  | 0, a, b => if a > b then a else b
+  | fuel + 1, a, b =>
+    if a > 0 && b > 0 then (if a ≥ b then goGcdLoop fuel (a % b) b else goGcdLoop fuel a (b % a))
+    else (if a > b then a else b)
+
+def goGcd (a b : Nat) : Nat := goGcdLoop (a + b) a b
+
+/-- `math.GCDM(weights...)` on the REVERSED list (last weight first): fewer than two weights give 0; two give their
+`GCD`; otherwise `GCD(GCDM(all but the last), GCD(last two))` -/
+def goGcdmRev : List Nat → Nat
+  | [] => 0
+  | [_] => 0
+  | y :: x :: rest =>
+    match rest with
+    | [] => goGcd x y
+    | _ :: _ => goGcd (goGcdmRev (x :: rest)) (goGcd x y)
+
+def goGcdm (ws : List Nat) : Nat := goGcdmRev ws.reverse
+
 /-! ### shared client pool -/
 
 /-- `prepareClientPool`: disabled ⇒ no pool (0); enabled ⇒ `client-number`, at least 1 -/
